@@ -142,3 +142,76 @@ func Depth(x interface{}) int {
 	}
 	return 0
 }
+
+// Rebuild deep-copies x, inserting map keys in a random order (Go iterates a
+// small map in a rotation of its insertion order, so varying the insertion
+// order varies every iteration order the runtime can choose).
+func Rebuild(r *rand.Rand, x interface{}) interface{} {
+	switch t := x.(type) {
+	case map[string]interface{}:
+		ks := make([]string, 0, len(t))
+		for k := range t {
+			ks = append(ks, k)
+		}
+		sortStr(ks)
+		r.Shuffle(len(ks), func(i, j int) { ks[i], ks[j] = ks[j], ks[i] })
+		m := make(map[string]interface{}, len(ks))
+		for _, k := range ks {
+			m[k] = Rebuild(r, t[k])
+		}
+		return m
+	case []interface{}:
+		a := make([]interface{}, len(t))
+		for i, e := range t {
+			a[i] = Rebuild(r, e)
+		}
+		return a
+	}
+	return x
+}
+
+// RebuildOrder deep-copies x; the top-level map's keys are inserted in the given order.
+func RebuildOrder(r *rand.Rand, x interface{}, order []string) interface{} {
+	t, ok := x.(map[string]interface{})
+	if !ok {
+		return Rebuild(r, x)
+	}
+	m := make(map[string]interface{}, len(order))
+	for _, k := range order {
+		m[k] = Rebuild(r, t[k])
+	}
+	return m
+}
+
+// Permutations of a small string slice.
+func Permutations(xs []string) [][]string {
+	if len(xs) <= 1 {
+		return [][]string{append([]string{}, xs...)}
+	}
+	var out [][]string
+	for i := range xs {
+		rest := append(append([]string{}, xs[:i]...), xs[i+1:]...)
+		for _, p := range Permutations(rest) {
+			out = append(out, append([]string{xs[i]}, p...))
+		}
+	}
+	return out
+}
+
+func sortStr(a []string) {
+	for i := 1; i < len(a); i++ {
+		for j := i; j > 0 && a[j] < a[j-1]; j-- {
+			a[j], a[j-1] = a[j-1], a[j]
+		}
+	}
+}
+
+// SortedKeys of a map.
+func SortedKeys(m map[string]interface{}) []string {
+	ks := make([]string, 0, len(m))
+	for k := range m {
+		ks = append(ks, k)
+	}
+	sortStr(ks)
+	return ks
+}
